@@ -23,6 +23,7 @@ func init() {
 			Messages int `json:"messages"`
 			Reporter int `json:"reporter_us"` // pause between interim reports (0 = no reporter)
 			HoldUs   int `json:"hold_us"`
+			Rounds   int `json:"rounds"` // repeat the whole scenario (fresh global set each time); report the worst round
 		}
 		if err := json.Unmarshal(raw, &c); err != nil {
 			return nil, err
@@ -30,6 +31,44 @@ func init() {
 		query, err := mapr.NewQuery("select count(x) from . group by g logformat generickv")
 		if err != nil {
 			return nil, err
+		}
+		if c.Rounds > 1 {
+			worst, bad := c.Servers*c.Messages, 0
+			for r := 0; r < c.Rounds; r++ {
+				global := mapr.NewGlobalGroupSet()
+				start := make(chan struct{})
+				var wg sync.WaitGroup
+				for s := 0; s < c.Servers; s++ {
+					wg.Add(1)
+					go func(s int) {
+						defer wg.Done()
+						agg := maprclient.NewAggregate(fmt.Sprintf("s%d", s), query, global)
+						<-start // all connections deliver their first partial result at the same instant
+						for m := 0; m < c.Messages; m++ {
+							agg.Aggregate(fmt.Sprintf("g%d∥1∥count(x)≔1∥", (s+m)%3))
+						}
+					}(s)
+				}
+				close(start)
+				wg.Wait()
+				rows, err := global.VerifRows(query)
+				if err != nil {
+					return nil, err
+				}
+				total := 0
+				for _, row := range rows {
+					var n int
+					fmt.Sscan(row[1], &n)
+					total += n
+				}
+				if total != c.Servers*c.Messages {
+					bad++
+					if total < worst {
+						worst = total
+					}
+				}
+			}
+			return map[string]interface{}{"total": worst, "expected": c.Servers * c.Messages, "bad_rounds": bad, "rounds": c.Rounds}, nil
 		}
 		global := mapr.NewGlobalGroupSet()
 		stop := make(chan struct{})
